@@ -169,6 +169,7 @@ pub struct ItemResult {
     pub violations: Vec<FoundViol>,
     pub sample: Option<(Vec<u8>, Vec<String>, String)>,
     pub tags: BTreeMap<String, u64>,
+    pub wall_ms: u64,
 }
 
 /// the item currently being explored (for the fatal handler)
@@ -220,7 +221,14 @@ fn outcome_hash(obs: &Obs) -> u64 {
     h
 }
 
+/// wall-clock cap per item (seconds); 0 = none. Far above any item on the unchanged tree (reported as
+/// `max_item_ms`); an item that hits it is reported as not exhaustive
+pub static ITEM_TIME_CAP_S: std::sync::atomic::AtomicU64 = std::sync::atomic::AtomicU64::new(0);
+
 pub fn run_item(prop: &str, item: &Item) -> ItemResult {
+    let t_item = std::time::Instant::now();
+    let time_cap = ITEM_TIME_CAP_S.load(std::sync::atomic::Ordering::Relaxed);
+    let mut timed_out = false;
     let case = &item.case;
     let cfg = item.plan.config();
     let mut res = ItemResult::default();
@@ -311,12 +319,17 @@ pub fn run_item(prop: &str, item: &Item) -> ItemResult {
         }
         // an item is abandoned at its first violating execution: the verdict is in, and a changed tree can make
         // the rest of the item arbitrarily expensive (e.g. surplus workers)
-        let next = if res.violations.is_empty() { Next::Continue } else { Next::Stop };
+        let mut next = if res.violations.is_empty() { Next::Continue } else { Next::Stop };
+        if time_cap > 0 && t_item.elapsed().as_secs() >= time_cap {
+            timed_out = true;
+            next = Next::Stop;
+        }
         (obs.rec, next)
     });
     let _ = case_h;
     res.executions = out.executions;
-    res.complete = out.complete || out.stopped;
+    res.complete = (out.complete || out.stopped) && !timed_out;
+    res.wall_ms = t_item.elapsed().as_millis() as u64;
     res.states = stats.states.len() as u64;
     res.edges = stats.edges.len() as u64;
     res.steps = stats.steps;
@@ -385,6 +398,8 @@ pub struct Agg {
     pub items_multi_outcome: u64,
     pub max_threads: u32,
     pub max_decisions: u32,
+    pub max_item_ms: u64,
+    pub max_item_execs: u64,
     pub incomplete: Vec<String>,
     pub by_plan: BTreeMap<String, (u64, u64, u64)>,
     pub lines: Vec<String>,
@@ -406,13 +421,15 @@ impl Agg {
         }
         self.max_threads = self.max_threads.max(r.max_threads);
         self.max_decisions = self.max_decisions.max(r.max_decisions);
+        self.max_item_ms = self.max_item_ms.max(r.wall_ms);
+        self.max_item_execs = self.max_item_execs.max(r.executions);
         let e = self.by_plan.entry(item.plan.name()).or_insert((0, 0, 0));
         e.0 += 1;
         e.1 += r.executions;
         if r.complete {
             e.2 += 1;
         } else {
-            self.incomplete.push(format!("{} {} stopped at cap {} executions", item.case.encode(), item.plan.name(), item.plan.max_execs));
+            self.incomplete.push(format!("{} {} stopped after {} executions / {} ms (caps: {} executions, wall clock)", item.case.encode(), item.plan.name(), r.executions, r.wall_ms, item.plan.max_execs));
         }
         if !r.violations.is_empty() {
             self.lines.push(result_json(prop, idx, item, r));
@@ -443,6 +460,8 @@ impl Agg {
             .n("items_multi_outcome", self.items_multi_outcome)
             .n("max_threads", self.max_threads as u64)
             .n("max_decisions", self.max_decisions as u64)
+            .n("max_item_ms", self.max_item_ms)
+            .n("max_item_execs", self.max_item_execs)
             .raw("incomplete", &arr(&self.incomplete.iter().map(|x| esc(x)).collect::<Vec<_>>()))
             .raw("plans", &arr(&plans))
             .raw("violating_items", &arr(&self.lines))
